@@ -316,7 +316,8 @@ pub fn run(args: &Args) {
 		if wi % 4 == 3 {
 			let c = specs[0].comp;
 			for s in specs.iter_mut() {
-				if base_kind(&s.kind) != "mbtiles" || c == 1 {
+				// an mbtiles file (also the mbx variants) with format pbf is gzip by convention: its compression is not free
+				if (base_kind(&s.kind) != "mbtiles" && !base_kind(&s.kind).starts_with("mbx")) || c == 1 {
 					s.comp = c;
 				}
 			}
